@@ -501,6 +501,12 @@ func (n *Node) mutate(method string, parts []string, action string, in Obj) stri
 				expr = em
 			}
 		}
+		if expr == nil && method == "PATCH" {
+			// PATCH is create-or-update in the policy API: a further
+			// expression comes into being.
+			expr = map[string]any{"id": parts[5]}
+			g["expression"] = append(ex, expr)
+		}
 		if expr == nil {
 			return "expression " + parts[5] + " of group " + parts[3] + " does not exist"
 		}
